@@ -17,9 +17,10 @@ CLAIMED = ["C01", "C02", "C03", "C04", "C05", "C06", "C07", "C08", "C09", "C10",
 
 
 class Ob:
-    __slots__ = ("rule", "inst", "ok", "what", "fn", "site", "detail", "nontrivial", "kind")
+    __slots__ = ("rule", "inst", "ok", "what", "fn", "site", "detail", "nontrivial", "kind", "sig")
 
-    def __init__(self, rule, inst, ok, what, fn=None, site=None, detail=None, nontrivial=True, kind="rule"):
+    def __init__(self, rule, inst, ok, what, fn=None, site=None, detail=None, nontrivial=True, kind="rule", sig=None):
+        self.sig = sig
         self.rule = rule
         self.inst = inst
         self.ok = ok
@@ -44,6 +45,8 @@ class Ob:
             d["detail"] = self.detail
         if self.kind != "rule":
             d["kind"] = self.kind
+        if self.sig is not None:
+            d["sig"] = self.sig
         return d
 
 
@@ -58,7 +61,7 @@ class Ctx:
         self.analysed_fns = set()
         self._cur = None
 
-    def ob(self, inst, ok, what, fn=None, site=None, detail=None, nontrivial=True, rule=None):
+    def ob(self, inst, ok, what, fn=None, site=None, detail=None, nontrivial=True, rule=None, sig=None):
         r = rule or self._cur
         fk = None
         if fn is not None:
@@ -66,7 +69,7 @@ class Ctx:
             self.analysed_fns.add(fk)
             if site is None and hasattr(fn, "span"):
                 site = fn.span
-        self.obs.append(Ob(r, inst, bool(ok), what, fk, site, detail, nontrivial))
+        self.obs.append(Ob(r, inst, bool(ok), what, fk, site, detail, nontrivial, sig=sig))
         return bool(ok)
 
     def touch(self, fn):
@@ -151,7 +154,8 @@ def run_property(prop, repo="/repo", tier="quick", crates=None, meta=None, quiet
     violations, known_hits = [], []
     for o in ctx.obs:
         if not o.ok:
-            if o.key in known:
+            # a known finding suppresses exactly one failure: same key AND same failure signature
+            if o.key in known and (known[o.key].get("sig") is None or known[o.key].get("sig") == o.sig):
                 known_hits.append((o, known[o.key]))
             else:
                 violations.append(o)
